@@ -87,17 +87,62 @@ theorem keyValue_self : ∀ (es : List Expr) (kv : List Val), es.Nodup → kv.le
     rw [keyValue_self es vs hnd'.2 (by simpa using hlen)]
     simp [keyValue, this]
 
+/-! ### which keys reach GROUP BY, and how the engine reads them -/
+
+/-- **every key reaches the GROUP BY clause** (whatever the class of its expression): the filter of the
+    regenerated comprehension `[x.column_expression for x in self.group_by_cols <if …>]` keeps everything -/
+theorem groupByKeeps_all : ∀ c : KeyClass, groupByKeeps c = true := by
+  intro c; cases c <;> rfl
+
+/-- the same for the tuple of a grouping set -/
+theorem groupingSetKeeps_all : ∀ c : KeyClass, groupingSetKeeps c = true := by
+  intro c; cases c <;> rfl
+
+theorem groupByList_eq (keys : List (Name × Expr)) : groupByList keys = keys.map (·.2) := by
+  unfold groupByList
+  rw [List.filter_eq_self.mpr (fun k _ => groupByKeeps_all _)]
+
+theorem groupingSetList_eq (S : List (Name × Expr)) : groupingSetList S = S.map (·.2) := by
+  unfold groupingSetList
+  rw [List.filter_eq_self.mpr (fun k _ => groupingSetKeeps_all _)]
+
+/-- a GROUP BY term that is not an integer constant stands for itself -/
+theorem groupByTerm_self (sel : List (Name × GItem)) (e : Expr) (h : e.isIntLit = false) : groupByTerm sel e = some e := by
+  cases e with
+  | lit v => cases v <;> first | rfl | (simp [Expr.isIntLit] at h)
+  | _ => rfl
+
+theorem resolveGroupBy_self (sel : List (Name × GItem)) : ∀ es : List Expr, (∀ e ∈ es, e.isIntLit = false) →
+    resolveGroupBy sel es = some es
+  | [], _ => rfl
+  | e :: es, h => by
+    simp only [resolveGroupBy, groupByTerm_self sel e (h e (by simp)),
+      resolveGroupBy_self sel es (fun x hx => h x (by simp [hx]))]
+
+theorem resolveSets_self (sel : List (Name × GItem)) : ∀ Ss : List (List Expr), (∀ S ∈ Ss, ∀ e ∈ S, e.isIntLit = false) →
+    resolveSets sel Ss = some Ss
+  | [], _ => rfl
+  | S :: Ss, h => by
+    simp only [resolveSets, resolveGroupBy_self sel S (h S (by simp)),
+      resolveSets_self sel Ss (fun x hx => h x (by simp [hx]))]
+
 theorem filter_true' {α} (l : List α) (p : α → Bool) (h : ∀ a, p a = true) : l.filter p = l := by
   apply List.filter_eq_self.mpr; intro a _; exact h a
 
 /-- **a SELECT block with GROUP BY on the un-aliased keys and select list keys ++ aggregates evaluates to
     the specification applied to the filtered source** (for every table, key list, aggregate list) -/
 theorem evalGBlock_spec (wher : List Expr) (keys : List (Name × Expr)) (aggs : List (Name × AExpr)) (T0 : Table)
-    (hk : (keys.map (·.2)).Nodup) :
-    evalGBlock { wher := wher, groupBy := keys.map (·.2),
+    (hk : (keys.map (·.2)).Nodup) (hn : ∀ k ∈ keys, k.2.isIntLit = false) :
+    evalGBlock { wher := wher, groupBy := groupByList keys,
                  sel := keys.map (fun k => (k.1, GItem.key k.2)) ++ aggs.map (fun a => (a.1, GItem.agg a.2)) } T0
       = aggSpec keys aggs { cols := T0.cols, rows := stWhere wher T0 } := by
-  simp only [evalGBlock, aggSpec]
+  have hres : resolveGroupBy (keys.map (fun k => (k.1, GItem.key k.2)) ++ aggs.map (fun a => (a.1, GItem.agg a.2)))
+      (groupByList keys) = some (keys.map (·.2)) := by
+    rw [groupByList_eq]
+    exact resolveGroupBy_self _ _ (fun e he => by
+      obtain ⟨k, hk', rfl⟩ := List.mem_map.mp he
+      exact hn k hk')
+  simp only [evalGBlock, hres, aggSpec]
   congr 1
   · simp [List.map_append, List.map_map, Function.comp_def]
   · cases keys with
